@@ -10,7 +10,7 @@ reference model* that drives the native `env.reset` / `env.step` with the docume
     reset:  k, key = split(key);  state, ts = env.reset(k)
     step:   state, ts = env.step(state, a)
 
-Histories.  gym alphabet {reset(), reset(seed=1), reset(seed=2), seed(1), step(a0), step(a1)},
+Histories.  gym alphabet {reset(), reset(seed=0), reset(seed=1), reset(seed=2), seed(1), step(a0), step(a1)},
 dm_env alphabet {reset(), step(a0), step(a1)}.  Histories in which a `step` precedes the first
 `reset` are *skipped* (outside the documented API; `seed(1)` may come first).  Every maximal
 history is run from the constructor state and checked after every operation, so every shorter
@@ -105,8 +105,9 @@ CONFIGS: Dict[str, List[Tuple[str, str]]] = {
 }
 assert sorted(CONFIGS) == catalog.FAMILIES
 
+# reset(seed=0) is in the alphabet on purpose: 0 is the one seed a careless `if seed:` would drop.
 GYM_OPS: List[Tuple[str, Optional[int]]] = [
-    ("reset", None), ("reset", 1), ("reset", 2), ("seed", 1), ("step", 0), ("step", 1)]
+    ("reset", None), ("reset", 0), ("reset", 1), ("reset", 2), ("seed", 1), ("step", 0), ("step", 1)]
 DM_OPS: List[Tuple[str, Optional[int]]] = [("reset", None), ("step", 0), ("step", 1)]
 GYM_CTOR_SEEDS = (0, 1)
 DM_CTOR_KEYS: Tuple[Optional[int], ...] = (None, 1)  # None: documented default PRNGKey(0); 1: PRNGKey(1)
@@ -413,7 +414,7 @@ class Checker:
         self.ref = Reference(env, self.acts, jit=jit_reference)
         self.obs_spec = env.observation_spec
         self.gym_obs_space = jspecs.jumanji_specs_to_gym_spaces(env.observation_spec)
-        self.violations: List[Violation] = []
+        self._best: Dict[str, Tuple[Any, Violation]] = {}
         self.n_by_sig: Dict[str, int] = {}
         self.vac: Dict[str, int] = {}
         self.episodes: Dict[Any, Any] = {}  # gym: episode signature -> first adapter output
@@ -425,15 +426,22 @@ class Checker:
         self.vac[k] = self.vac.get(k, 0) + int(n)
 
     def violation(self, sig: str, msg: str, doc: Dict[str, Any]) -> None:
-        n = self.n_by_sig.get(sig, 0)
-        self.n_by_sig[sig] = n + 1
-        if n >= 2:
+        """Keeps, per signature, the case with the shortest (then lexicographically first) history, so
+        the reported counterexample is minimal and does not depend on VERIF_SEED's ordering."""
+        self.n_by_sig[sig] = self.n_by_sig.get(sig, 0) + 1
+        h = doc.get("history", [])
+        rank = (len(h), repr(h), repr(doc.get("ctor_seed", doc.get("ctor_key"))))
+        if sig in self._best and self._best[sig][0] <= rank:
             return
         doc = dict(doc)
         doc.update(property=PID, signature=sig, model=self.model, family=self.family, ctor=self.ctor,
                    actions=[np.asarray(a).tolist() for a in self.acts])
-        hist = " ; ".join(op_str(o) for o in doc.get("history", []))
-        self.violations.append(Violation(PID, self.model, sig, f"{msg}  [history: {hist}]", doc))
+        hist = " ; ".join(op_str(o) for o in h)
+        self._best[sig] = (rank, Violation(PID, self.model, sig, f"{msg}  [history: {hist}]", doc))
+
+    @property
+    def violations(self) -> List[Violation]:
+        return [self._best[s][1] for s in sorted(self._best)]
 
     # -- native-spec cross reference ----------------------------------------------------------
     def _native_bad_leaves(self, native_obs: Any) -> set:
@@ -741,7 +749,8 @@ def _rotate(items: List[Any], seed: int, n: int) -> List[Any]:
 # ---------------------------------------------------------------------------------------------
 # worker: all histories of one configuration
 # ---------------------------------------------------------------------------------------------
-def run_config(family: str, index: int, tier: str, seed: int) -> Dict[str, Any]:
+def run_config(family: str, index: int, tier: str, seed: int, model: str = "") -> Dict[str, Any]:
+    del model  # only there so that a crashed worker is reported under a readable name
     t0 = time.time()
     model, ctor = CONFIGS[family][index]
     env = make_env(ctor)
@@ -930,7 +939,8 @@ def check_action_space(family: str, model: str, ctor: str, env: Any, cap: int, v
             "same_cardinality_as_spec": same_size, "violations": viol}
 
 
-def run_action_spaces(family: str, tier: str, seed: int) -> Dict[str, Any]:
+def run_action_spaces(family: str, tier: str, seed: int, model: str = "") -> Dict[str, Any]:
+    del model
     t0 = time.time()
     cap = 20000
     validate_cap = 1500 if tier == "quick" else 20000
@@ -974,7 +984,7 @@ def replay(rdoc: Dict[str, Any]) -> int:
         sigs = sorted({v.signature for v in r["violations"]})
         print(f"replay(action-space): space={r['space']} members={r['members_checked']} signatures={sigs}")
         return 1 if (want in sigs or (want is None and sigs)) else 0
-    ck = Checker(rdoc["family"], rdoc["model"], rdoc["ctor"], env)
+    ck = Checker(rdoc["family"], rdoc["model"], rdoc["ctor"], env, jit_reference=False)  # eager native reference
     hist = [(o[0], o[1]) for o in rdoc["history"]]
     print(f"replay({kind}) {rdoc['model']}: " + " ; ".join(op_str(o) for o in hist))
     if kind == "gym":
